@@ -8,8 +8,15 @@
   both values of `always_overwrite_results`, every exit status, every setting of the
   ZeroFPR-specific parameters, and over *any* carrier (IEEE doubles included): they are structural
   facts about which oracle answer ends up in which output.
+
+  The theorems named `…_fuel` carry the hypothesis `fuelOut = false` (the model's explicit loop fuel
+  did not run out; any carrier, any stop schedule; the replay asserts it on every recorded run).  The
+  theorems with the plain names discharge it over an ordered field from explicit bounds on the
+  parameters, `FuelOK pr N M` (`L_max ≤ L_start·2^N`, `2^-M < min_linesearch_coefficient`,
+  `N(M+2)+M < lsFuel`), and a stop flag that is never lowered (`Proofs/ZerofprFuel.lean`).
 -/
 import Alpaqa.Proofs.ZerofprInv
+import Alpaqa.Proofs.ZerofprFuel
 import Alpaqa.Proofs.ZerofprExample
 
 namespace Alpaqa.Props.C03_Zerofpr
@@ -57,10 +64,10 @@ theorem mainLoop_ok (P : Problem α) (dir : Direction D α) (pr : Params α) (st
     `x_out` is the `x̂` of a proximal-gradient step (hence in `C` for any prox that maps into `C`),
     `y_out` is the ψ-oracle's `ŷ` *at that very `x_out`*, and `err_z = (y_out − y_in)/Σ`.
     Otherwise `x`, `y`, `err_z` are the caller's values, untouched. -/
-theorem zerofpr_exit_contract (P : Problem α) (dir : Direction D α) (d0 : D) (pr : Params α)
-    (stop : Nat → Bool) (oot : Bool) (x0 y Sig errz0 gV : Vec α) (gS : α)
-    (hfuel : (run P dir d0 pr stop oot x0 y Sig errz0 gV gS).fuelOut = false) :
-    ExitOK P x0 y Sig errz0 (run P dir d0 pr stop oot x0 y Sig errz0 gV gS) := by
+theorem zerofpr_exit_contract_fuel (P : Problem α) (dir : Direction D α) (d0 : D) (pr : Params α)
+    (stop : Nat → Bool) (oot : Bool) (x0 y Sig errz0 gV : Vec α) (gS iS : α)
+    (hfuel : (run P dir d0 pr stop oot x0 y Sig errz0 gV gS iS).fuelOut = false) :
+    ExitOK P x0 y Sig errz0 (run P dir d0 pr stop oot x0 y Sig errz0 gV gS iS) := by
   unfold run at hfuel ⊢
   cases hi : initState P d0 pr stop x0 gV gS with
   | inl t =>
@@ -73,50 +80,50 @@ theorem zerofpr_exit_contract (P : Problem α) (dir : Direction D α) (d0 : D) (
 
 /-- Feasibility: if the problem's prox step maps into `C` (proved for the shipped box / box+ℓ1 /
     unconstrained steps in `Props/C15`), the written-back `x` is in `C`. -/
-theorem zerofpr_x_out_feasible (InC : Vec α → Prop) (P : Problem α)
+theorem zerofpr_x_out_feasible_fuel (InC : Vec α → Prop) (P : Problem α)
     (hP : ∀ γ x g, InC (P.prox γ x g).2.1)
     (dir : Direction D α) (d0 : D) (pr : Params α)
-    (stop : Nat → Bool) (oot : Bool) (x0 y Sig errz0 gV : Vec α) (gS : α)
-    (hfuel : (run P dir d0 pr stop oot x0 y Sig errz0 gV gS).fuelOut = false)
-    (hw : (run P dir d0 pr stop oot x0 y Sig errz0 gV gS).wrote = true) :
-    InC (run P dir d0 pr stop oot x0 y Sig errz0 gV gS).x := by
+    (stop : Nat → Bool) (oot : Bool) (x0 y Sig errz0 gV : Vec α) (gS iS : α)
+    (hfuel : (run P dir d0 pr stop oot x0 y Sig errz0 gV gS iS).fuelOut = false)
+    (hw : (run P dir d0 pr stop oot x0 y Sig errz0 gV gS iS).wrote = true) :
+    InC (run P dir d0 pr stop oot x0 y Sig errz0 gV gS iS).x := by
   obtain ⟨⟨γ, x, g, hx⟩, _, _⟩ :=
-    (zerofpr_exit_contract P dir d0 pr stop oot x0 y Sig errz0 gV gS hfuel).1 hw
+    (zerofpr_exit_contract_fuel P dir d0 pr stop oot x0 y Sig errz0 gV gS iS hfuel).1 hw
   rw [hx]; exact hP γ x g
 
 /-- Consistency: `y_out = ŷ(x_out)` and `err_z = (y_out − y_in)/Σ`, i.e. `y_out = y_in + Σ·err_z`
     componentwise whenever `Σ_i ≠ 0` (stated in the division form the code computes). -/
-theorem zerofpr_y_errz_consistent (P : Problem α) (dir : Direction D α) (d0 : D) (pr : Params α)
-    (stop : Nat → Bool) (oot : Bool) (x0 y Sig errz0 gV : Vec α) (gS : α)
-    (hfuel : (run P dir d0 pr stop oot x0 y Sig errz0 gV gS).fuelOut = false)
-    (hw : (run P dir d0 pr stop oot x0 y Sig errz0 gV gS).wrote = true) :
-    (run P dir d0 pr stop oot x0 y Sig errz0 gV gS).y
-        = (P.psi (run P dir d0 pr stop oot x0 y Sig errz0 gV gS).x).2 ∧
-    (errz0.length > 0 → (run P dir d0 pr stop oot x0 y Sig errz0 gV gS).errz
-        = vdiv (vsub (run P dir d0 pr stop oot x0 y Sig errz0 gV gS).y y) Sig) := by
+theorem zerofpr_y_errz_consistent_fuel (P : Problem α) (dir : Direction D α) (d0 : D) (pr : Params α)
+    (stop : Nat → Bool) (oot : Bool) (x0 y Sig errz0 gV : Vec α) (gS iS : α)
+    (hfuel : (run P dir d0 pr stop oot x0 y Sig errz0 gV gS iS).fuelOut = false)
+    (hw : (run P dir d0 pr stop oot x0 y Sig errz0 gV gS iS).wrote = true) :
+    (run P dir d0 pr stop oot x0 y Sig errz0 gV gS iS).y
+        = (P.psi (run P dir d0 pr stop oot x0 y Sig errz0 gV gS iS).x).2 ∧
+    (errz0.length > 0 → (run P dir d0 pr stop oot x0 y Sig errz0 gV gS iS).errz
+        = vdiv (vsub (run P dir d0 pr stop oot x0 y Sig errz0 gV gS iS).y y) Sig) := by
   obtain ⟨_, hy, he⟩ :=
-    (zerofpr_exit_contract P dir d0 pr stop oot x0 y Sig errz0 gV gS hfuel).1 hw
+    (zerofpr_exit_contract_fuel P dir d0 pr stop oot x0 y Sig errz0 gV gS iS hfuel).1 hw
   exact ⟨hy, fun h => by rw [he, if_pos h]⟩
 
 /-- With `always_overwrite_results` disabled and an exit that is neither Converged nor
     Interrupted — and on the early `NotFinite` return — `x`, `y` and `err_z` are left untouched. -/
-theorem zerofpr_untouched (P : Problem α) (dir : Direction D α) (d0 : D) (pr : Params α)
-    (stop : Nat → Bool) (oot : Bool) (x0 y Sig errz0 gV : Vec α) (gS : α)
-    (hfuel : (run P dir d0 pr stop oot x0 y Sig errz0 gV gS).fuelOut = false)
-    (hw : (run P dir d0 pr stop oot x0 y Sig errz0 gV gS).wrote = false) :
-    (run P dir d0 pr stop oot x0 y Sig errz0 gV gS).x = x0 ∧
-    (run P dir d0 pr stop oot x0 y Sig errz0 gV gS).y = y ∧
-    (run P dir d0 pr stop oot x0 y Sig errz0 gV gS).errz = errz0 :=
-  (zerofpr_exit_contract P dir d0 pr stop oot x0 y Sig errz0 gV gS hfuel).2 hw
+theorem zerofpr_untouched_fuel (P : Problem α) (dir : Direction D α) (d0 : D) (pr : Params α)
+    (stop : Nat → Bool) (oot : Bool) (x0 y Sig errz0 gV : Vec α) (gS iS : α)
+    (hfuel : (run P dir d0 pr stop oot x0 y Sig errz0 gV gS iS).fuelOut = false)
+    (hw : (run P dir d0 pr stop oot x0 y Sig errz0 gV gS iS).wrote = false) :
+    (run P dir d0 pr stop oot x0 y Sig errz0 gV gS iS).x = x0 ∧
+    (run P dir d0 pr stop oot x0 y Sig errz0 gV gS iS).y = y ∧
+    (run P dir d0 pr stop oot x0 y Sig errz0 gV gS iS).errz = errz0 :=
+  (zerofpr_exit_contract_fuel P dir d0 pr stop oot x0 y Sig errz0 gV gS iS hfuel).2 hw
 
 /-- The written-back point is the `x̂` of the iterate that was current at exit, which is also the
     iterate handed to the last progress callback. -/
 theorem zerofpr_x_out_is_final_xhat (P : Problem α) (dir : Direction D α) (d0 : D) (pr : Params α)
-    (stop : Nat → Bool) (oot : Bool) (x0 y Sig errz0 gV : Vec α) (gS : α)
-    (hw : (run P dir d0 pr stop oot x0 y Sig errz0 gV gS).wrote = true) :
-    ∃ c, (run P dir d0 pr stop oot x0 y Sig errz0 gV gS).final = some c ∧
-      (run P dir d0 pr stop oot x0 y Sig errz0 gV gS).x = c.xhat ∧
-      (run P dir d0 pr stop oot x0 y Sig errz0 gV gS).y = c.yhat := by
+    (stop : Nat → Bool) (oot : Bool) (x0 y Sig errz0 gV : Vec α) (gS iS : α)
+    (hw : (run P dir d0 pr stop oot x0 y Sig errz0 gV gS iS).wrote = true) :
+    ∃ c, (run P dir d0 pr stop oot x0 y Sig errz0 gV gS iS).final = some c ∧
+      (run P dir d0 pr stop oot x0 y Sig errz0 gV gS iS).x = c.xhat ∧
+      (run P dir d0 pr stop oot x0 y Sig errz0 gV gS iS).y = c.yhat := by
   unfold run at hw ⊢
   cases hi : initState P d0 pr stop x0 gV gS with
   | inl t => simp [hi] at hw
@@ -132,6 +139,52 @@ theorem zerofpr_x_out_is_final_xhat (P : Problem α) (dir : Direction D α) (d0 
       unfold exitBlock at hw ⊢
       simp only [] at hw ⊢
       exact ⟨_, rfl, by simp [hw], by simp [hw]⟩
+
+/-- **When are the outputs overwritten**: exactly on `Converged`, `Interrupted`, or with
+    `always_overwrite_results` — and never on the early `NotFinite` return (non-finite Lipschitz
+    estimate), which happens before any iterate exists.  Unconditional (every oracle, stop schedule,
+    budget). -/
+theorem zerofpr_wrote_iff (P : Problem α) (dir : Direction D α) (d0 : D) (pr : Params α)
+    (stop : Nat → Bool) (oot : Bool) (x0 y Sig errz0 gV : Vec α) (gS iS : α) :
+    (run P dir d0 pr stop oot x0 y Sig errz0 gV gS iS).wrote =
+      ((run P dir d0 pr stop oot x0 y Sig errz0 gV gS iS).final.isSome &&
+        ((run P dir d0 pr stop oot x0 y Sig errz0 gV gS iS).stats.status == .Converged ||
+         (run P dir d0 pr stop oot x0 y Sig errz0 gV gS iS).stats.status == .Interrupted ||
+         pr.alwaysOverwrite)) := by
+  unfold run
+  cases hi : initState P d0 pr stop x0 gV gS with
+  | inl t => simp
+  | inr s =>
+    simp only []
+    rcases mainLoop_cases P dir pr stop oot x0 y Sig errz0 (fun _ => True)
+      (fun _ _ _ => trivial) (pr.maxIter + 2) s trivial with ⟨s', _, _, he⟩ | ⟨s', _, he⟩
+    · rw [he]
+      have hx := exitBlock_spec pr (headStep P pr stop oot s').1 (headStep P pr stop oot s').2.1
+        (headStep P pr stop oot s').2.2 x0 y Sig errz0
+      rw [hx.1, hx.2.1, hx.2.2.2.2.1]; simp
+    · rw [he]
+      have hx := exitBlock_spec pr s' s'.stats.eps .Exception x0 y Sig errz0
+      show (exitBlock pr s' s'.stats.eps .Exception x0 y Sig errz0).wrote =
+        ((exitBlock pr s' s'.stats.eps .Exception x0 y Sig errz0).final.isSome &&
+          ((exitBlock pr s' s'.stats.eps .Exception x0 y Sig errz0).stats.status == .Converged ||
+           (exitBlock pr s' s'.stats.eps .Exception x0 y Sig errz0).stats.status == .Interrupted ||
+           pr.alwaysOverwrite))
+      rw [hx.1, hx.2.1, hx.2.2.2.2.1]; simp
+
+/-- … in "untouched" form: the outputs are left alone iff the solve returned before the main loop or
+    ended with a status other than `Converged` / `Interrupted` while `always_overwrite_results` is
+    off. -/
+theorem zerofpr_not_wrote_iff (P : Problem α) (dir : Direction D α) (d0 : D) (pr : Params α)
+    (stop : Nat → Bool) (oot : Bool) (x0 y Sig errz0 gV : Vec α) (gS iS : α) :
+    (run P dir d0 pr stop oot x0 y Sig errz0 gV gS iS).wrote = false ↔
+      ((run P dir d0 pr stop oot x0 y Sig errz0 gV gS iS).final = none ∨
+       ((run P dir d0 pr stop oot x0 y Sig errz0 gV gS iS).stats.status ≠ .Converged ∧
+        (run P dir d0 pr stop oot x0 y Sig errz0 gV gS iS).stats.status ≠ .Interrupted ∧
+        pr.alwaysOverwrite = false)) := by
+  rw [zerofpr_wrote_iff]
+  cases (run P dir d0 pr stop oot x0 y Sig errz0 gV gS iS).final <;>
+  cases (run P dir d0 pr stop oot x0 y Sig errz0 gV gS iS).stats.status <;>
+  cases pr.alwaysOverwrite <;> simp
 
 /-! ### Non-vacuity: a concrete solve over `ℚ` (`Proofs/ZerofprExample.lean`), kernel-evaluated -/
 section examples
@@ -152,5 +205,101 @@ example : (exRun (fun _ => false)).fuelOut = false ∧ (exRun (fun _ => false)).
   decide +kernel
 
 end examples
+
+/-! ### The same statements with the fuel hypothesis discharged (ordered field) -/
+section field
+variable {α D : Type} [Field α] [LinearOrder α] [IsStrictOrderedRing α] [RealLike α]
+
+/-- **Exit contract of `ZeroFPRSolver::operator()`**, fuel hypothesis discharged: for parameters
+    satisfying `FuelOK pr N M` and a stop flag that is never lowered. -/
+theorem zerofpr_exit_contract (P : Problem α) (dir : Direction D α) (d0 : D) (pr : Params α)
+    (stop : Nat → Bool) (hm : StopMono stop) (N M : Nat) (hF : FuelOK pr N M) (oot : Bool)
+    (x0 y Sig errz0 gV : Vec α) (gS iS : α) :
+    ExitOK P x0 y Sig errz0 (run P dir d0 pr stop oot x0 y Sig errz0 gV gS iS) :=
+  zerofpr_exit_contract_fuel P dir d0 pr stop oot x0 y Sig errz0 gV gS iS
+    (run_fuel P dir d0 pr stop hm N M hF oot x0 y Sig errz0 gV gS iS)
+
+theorem zerofpr_x_out_feasible (InC : Vec α → Prop) (P : Problem α)
+    (hP : ∀ γ x g, InC (P.prox γ x g).2.1) (dir : Direction D α) (d0 : D) (pr : Params α)
+    (stop : Nat → Bool) (hm : StopMono stop) (N M : Nat) (hF : FuelOK pr N M) (oot : Bool)
+    (x0 y Sig errz0 gV : Vec α) (gS iS : α)
+    (hw : (run P dir d0 pr stop oot x0 y Sig errz0 gV gS iS).wrote = true) :
+    InC (run P dir d0 pr stop oot x0 y Sig errz0 gV gS iS).x :=
+  zerofpr_x_out_feasible_fuel InC P hP dir d0 pr stop oot x0 y Sig errz0 gV gS iS
+    (run_fuel P dir d0 pr stop hm N M hF oot x0 y Sig errz0 gV gS iS) hw
+
+theorem zerofpr_y_errz_consistent (P : Problem α) (dir : Direction D α) (d0 : D) (pr : Params α)
+    (stop : Nat → Bool) (hm : StopMono stop) (N M : Nat) (hF : FuelOK pr N M) (oot : Bool)
+    (x0 y Sig errz0 gV : Vec α) (gS iS : α)
+    (hw : (run P dir d0 pr stop oot x0 y Sig errz0 gV gS iS).wrote = true) :
+    (run P dir d0 pr stop oot x0 y Sig errz0 gV gS iS).y
+        = (P.psi (run P dir d0 pr stop oot x0 y Sig errz0 gV gS iS).x).2 ∧
+    (errz0.length > 0 → (run P dir d0 pr stop oot x0 y Sig errz0 gV gS iS).errz
+        = vdiv (vsub (run P dir d0 pr stop oot x0 y Sig errz0 gV gS iS).y y) Sig) :=
+  zerofpr_y_errz_consistent_fuel P dir d0 pr stop oot x0 y Sig errz0 gV gS iS
+    (run_fuel P dir d0 pr stop hm N M hF oot x0 y Sig errz0 gV gS iS) hw
+
+theorem zerofpr_untouched (P : Problem α) (dir : Direction D α) (d0 : D) (pr : Params α)
+    (stop : Nat → Bool) (hm : StopMono stop) (N M : Nat) (hF : FuelOK pr N M) (oot : Bool)
+    (x0 y Sig errz0 gV : Vec α) (gS iS : α)
+    (hw : (run P dir d0 pr stop oot x0 y Sig errz0 gV gS iS).wrote = false) :
+    (run P dir d0 pr stop oot x0 y Sig errz0 gV gS iS).x = x0 ∧
+    (run P dir d0 pr stop oot x0 y Sig errz0 gV gS iS).y = y ∧
+    (run P dir d0 pr stop oot x0 y Sig errz0 gV gS iS).errz = errz0 :=
+  zerofpr_untouched_fuel P dir d0 pr stop oot x0 y Sig errz0 gV gS iS
+    (run_fuel P dir d0 pr stop hm N M hF oot x0 y Sig errz0 gV gS iS) hw
+
+section examples
+open Alpaqa.Zerofpr.Example
+
+/-- `FuelOK` for the concrete solve (`L_0 = 1`, `L_max = 100 ≤ 2⁷`, `τ_min = 1/256 > 2⁻⁹`), with the
+    default model fuel 4096 > `7·11 + 9`; the stop schedule "flag visible from tick 9 on" is never
+    lowered. -/
+example : FuelOK { exPr with lsFuel := 4096 } 7 9 :=
+  ⟨by norm_num [exPr], by norm_num [exPr], by norm_num [exPr], by norm_num [exPr], by norm_num,
+   by decide⟩
+
+example : ExitOK exP [3] [5] [2] [7]
+    (run exP exDir () { exPr with lsFuel := 4096 } stopAt9 false [3] [5] [2] [7] [] 0 1000000) :=
+  zerofpr_exit_contract exP exDir () { exPr with lsFuel := 4096 } stopAt9
+    (fun t t' h1 h2 => by unfold stopAt9 at *; simp only [decide_eq_true_eq] at *; omega) 7 9
+    ⟨by norm_num [exPr], by norm_num [exPr], by norm_num [exPr], by norm_num [exPr], by norm_num,
+     by decide⟩ false [3] [5] [2] [7] [] 0 1000000
+
+/-- feasibility, consistency and the untouched clause instantiated on the concrete solves: the prox
+    step of `exP` maps into `C = [−1, 1]`; interrupted at tick 9 the outputs are written
+    (`x = [1] ∈ C`), out of iterations without `always_overwrite_results` they are untouched. -/
+example : ∀ a ∈ (run exP exDir () { exPr with lsFuel := 4096 } stopAt9 false [3] [5] [2] [7] [] 0
+    1000000).x, -1 ≤ a ∧ a ≤ 1 :=
+  zerofpr_x_out_feasible (fun v => ∀ a ∈ v, -1 ≤ a ∧ a ≤ 1) exP
+    (fun γ x g a ha => by
+      simp only [exP, List.mem_singleton] at ha
+      subst ha
+      unfold clampQ
+      split_ifs <;> constructor <;> linarith)
+    exDir () { exPr with lsFuel := 4096 } stopAt9
+    (fun t t' h1 h2 => by unfold stopAt9 at *; simp only [decide_eq_true_eq] at *; omega) 7 9
+    ⟨by norm_num [exPr], by norm_num [exPr], by norm_num [exPr], by norm_num [exPr], by norm_num,
+     by decide⟩ false [3] [5] [2] [7] [] 0 1000000 (by decide +kernel)
+
+example : (run exP exDir () { exPr with lsFuel := 4096 } (fun _ => false) false [3] [5] [2] [7] [] 0
+    1000000).x = [3] :=
+  (zerofpr_untouched exP exDir () { exPr with lsFuel := 4096 } (fun _ => false) (fun _ _ _ h => h) 7 9
+    ⟨by norm_num [exPr], by norm_num [exPr], by norm_num [exPr], by norm_num [exPr], by norm_num,
+     by decide⟩ false [3] [5] [2] [7] [] 0 1000000 (by decide +kernel)).1
+
+/-- `wrote ↔ status`: both directions occur -/
+example : (exRun stopAt9).wrote = true ∧ (exRun (fun _ => false)).wrote = false ∧
+    (exRun stopAt9).final.isSome = true ∧ exPr.alwaysOverwrite = false := by decide +kernel
+
+/-- the worst case the replay driver is run with (`checks/loop_zerofpr.py`: `L_min = 1e-5`,
+    `L_max = 1e20`, `L_0 ≤ 0`, `min_linesearch_coefficient = 2⁻²⁰`, default fuel 4096) satisfies
+    `FuelOK` with `N = 84` (`2⁸⁴ > 10²⁵`), `M = 21`: `84·23 + 21 = 1953 < 4096`. -/
+example : FuelOK { exPr with L0 := 0, Lmin := 1/100000, Lmax := 100000000000000000000,
+                             minLsCoef := 1/1048576, lsFuel := 4096 } 84 21 :=
+  ⟨by norm_num, by norm_num, by norm_num, by norm_num, by norm_num, by decide⟩
+
+end examples
+end field
 
 end Alpaqa.Props.C03_Zerofpr
